@@ -7,11 +7,13 @@ package main
 import (
 	"bytes"
 	"context"
+	"encoding/binary"
 	"fmt"
 	"io"
 	"net"
 	"strings"
 	"sync"
+	"sync/atomic"
 	"time"
 
 	req "github.com/imroc/req/v3"
@@ -37,6 +39,9 @@ type h2opts struct {
 	UseTrailers bool     `json:"trailers_frame"`
 	ContFrag    int      `json:"continuation_fragment"` // >0: header blocks are cut into fragments of this size
 	Head        bool     `json:"head"`
+	After       string   `json:"after_end,omitempty"` // what the peer does after the response is complete: rst-no-error | rst-cancel | goaway-close | close
+	Upload      int      `json:"upload_bytes,omitempty"` // request body (never acknowledged: stays blocked on flow control)
+	barrier     chan struct{} // closed when the client has acknowledged the PING sent after the last scripted frame
 	heads       [][]field // wire field lists of every HEADERS frame before the data (interim..., final), with :status first
 	trailerWire []field
 }
@@ -44,6 +49,8 @@ type h2opts struct {
 type h2srv struct {
 	ln      net.Listener
 	scripts sync.Map // id -> *exch
+	pings   sync.Map // ping payload -> chan struct{}
+	pingSeq atomic.Uint64
 }
 
 func newH2Srv() (*h2srv, error) {
@@ -193,6 +200,8 @@ func (s *h2srv) serve(c net.Conn) {
 				fr.WritePing(true, f.Data)
 				flush()
 				wmu.Unlock()
+			} else if v, ok := s.pings.LoadAndDelete(f.Data); ok {
+				close(v.(chan struct{})) // the client's read loop is past everything sent before that PING
 			}
 		case *http2.HeadersFrame:
 			hdrBlock = append(hdrBlock[:0], f.HeaderBlockFragment()...)
@@ -256,6 +265,7 @@ func (s *h2srv) serve(c net.Conn) {
 					if o.UseTrailers {
 						writeHeaders(sid, o.trailerWire, true, o.ContFrag)
 					}
+					s.afterEnd(o, fr, flush, sid, c)
 					flush()
 					wmu.Unlock()
 					return
@@ -300,10 +310,42 @@ func (s *h2srv) serve(c net.Conn) {
 				}
 				wmu.Lock()
 				sw.segs = nil
+				s.afterEnd(o, fr, flush, sid, c)
 				wmu.Unlock()
 			}()
 		}
 	}
+}
+
+// afterEnd: the response is complete (END_STREAM sent); what the peer does next must not change what the
+// caller gets.  A PING follows; its ack tells the harness that the client's read loop has processed it all.
+func (s *h2srv) afterEnd(o *h2opts, fr *http2.Framer, flush func() error, sid uint32, c net.Conn) {
+	switch o.After {
+	case "rst-no-error":
+		fr.WriteRSTStream(sid, http2.ErrCodeNo)
+	case "rst-cancel":
+		fr.WriteRSTStream(sid, http2.ErrCodeCancel)
+	case "goaway-close", "close":
+		if o.After == "goaway-close" {
+			fr.WriteGoAway(sid, http2.ErrCodeNo, []byte("c02"))
+		}
+		flush()
+		if o.barrier != nil {
+			close(o.barrier)
+			o.barrier = nil
+		}
+		if tc, ok := c.(*net.TCPConn); ok {
+			tc.CloseWrite()
+		}
+		return
+	}
+	if o.barrier != nil {
+		var d [8]byte
+		binary.BigEndian.PutUint64(d[:], s.pingSeq.Add(1))
+		s.pings.Store(d, o.barrier)
+		fr.WritePing(false, d)
+	}
+	flush()
 }
 
 func newH2Client(addr string, decode bool) *req.Client {
@@ -421,6 +463,14 @@ func planH2(rng *hk.Rand, a *aresp, o *h2opts, method string) {
 }
 
 func (x *exch) runH2(srv *h2srv, c *req.Client, outDir string) {
+	if x.H2.Upload > 0 || x.H2.After != "" {
+		// own connection: the never-acknowledged upload uses up the connection's send window, and the
+		// close variants end the connection
+		c = newH2Client(srv.ln.Addr().String(), false)
+		defer c.GetTransport().CloseIdleConnections()
+		x.H2.barrier = make(chan struct{})
+		x.barrier = x.H2.barrier
+	}
 	id := nextID()
 	srv.scripts.Store(id, x)
 	defer srv.scripts.Delete(id)
